@@ -19,7 +19,7 @@ def run(run):
     for nme in NAMED:
         if not hasattr(Concept, nme):
             raise ApiBroken('Concept.%s is gone' % nme)
-    for tab, pc in lat.contexts(run, exh_quick=8, rand_quick=250, wide_quick=10, exh_thorough=11, nmax=8, mmax=8):
+    for tab, pc in lat.contexts(run, exh_quick=8, rand_quick=250, wide_quick=10, exh_thorough=13, nmax=8, mmax=8):
         if min(pc.n, pc.m) > 8:
             continue
         extra = {'objects': pc.objects, 'properties': pc.properties, 'bools': pc.bools}
